@@ -837,7 +837,36 @@ func (ex *Exec) box(st *State, v Value) *Term {
 	*st.nbox = *st.nbox + 1
 	id := *st.nbox
 	st.boxes[id] = v
+	// an interface value of one known dynamic type that goes into the heap: what a contract reads back from the
+	// heap element with unbox("T", e) - the functions unbox[T].<leaf> of the payload - is this value
+	if iv, ok := v.(*VIface); ok && len(iv.Alts) == 1 && !ex.inInit {
+		alt := iv.Alts[0]
+		if _, isStruct := alt.T.Underlying().(*types.Struct); isStruct {
+			if leaves, err := ex.flattenType(alt.T); err == nil {
+				if vals := ex.flattenSafe(st, alt.T, alt.Val); len(vals) == len(leaves) {
+					for i, lf := range leaves {
+						if vals[i].Sort == lf.Sort {
+							st.assume(Eq(App("unbox["+typeKey(alt.T)+"]"+lf.Path, lf.Sort, IntLit(id)), vals[i]))
+						}
+					}
+				}
+			}
+		}
+	}
 	return IntLit(id)
+}
+
+func (ex *Exec) flattenSafe(st *State, t types.Type, v Value) (out []*Term) {
+	defer func() {
+		if r := recover(); r != nil {
+			if _, ok := r.(unsupportedErr); ok {
+				out = nil
+				return
+			}
+			panic(r)
+		}
+	}()
+	return ex.flatten(st, t, v)
 }
 
 func (ex *Exec) unflatten(st *State, t types.Type, vals []*Term, pos *int) Value {
